@@ -104,7 +104,7 @@ def body(chk: check.Check):
             chk.sample(dict(formula=desc, expected=[[exprreplay.terms.show(t) for t in row] for row in rec['vals']],
                             evaluations=val['n'], mismatches=len(val['mismatches'])))
             for m in val['mismatches']:
-                chk.violation('replay:value', dict(formula=desc, ops=rec['ops'], **m),
+                chk.violation('replay:value', {**dict(formula=desc, ops=rec['ops']), **m},
                               match=dict(kind='value', features=feats, path_shared='tree' not in m['path']))
 
     # side-by-side simulation of batches of formulas (BIOGEME path)
